@@ -24,6 +24,12 @@ def main(tier):
                     "lazy": bool(i % 2), "downenc": rng.choice([None, None, "S", "V"]) if common.QTYPES[i % 7] not in ("NULL", "PRIVATE") and i % 3 else None,
                     "change_at": sorted(rng.sample(range(1, 12), n - 1)), "offer_at": [rng.randrange(5, 30)],
                     "pings": 40, "check_ip": i % 5 != 0, "label": "fragscript%d" % i})
+    for i, f in enumerate(fsp):
+        if i % 2:
+            pool = [{"c": "L", "src": 1, "uid": 0, "claim": 1}, {"c": "I", "src": 1, "uid": 0},
+                    {"c": "S", "src": 1, "uid": 0, "arg": "b32"}, {"c": "L", "src": 1, "uid": 0, "claim": 1},
+                    {"c": "L", "src": 1, "uid": 0, "claim": 0}, {"c": "P", "src": 1, "uid": 0}]
+            f["extras"] = [[rng.randrange(0, 14), pool[(i // 2 + j) % len(pool)]] for j in range(1 + i % 3)]
     for f in fsp:
         # C15 speaks about a NEGOTIATED size: CNAME/A answers hold one ~250-character name, a size above what that
         # carries is never negotiated (the probe fails) - same rule as common.fit_frag
